@@ -425,6 +425,11 @@ impl UserRx {
         Ok(flushed_bytes)
     }
 
+    /// Ask to be polled again when the reader consumes data.
+    pub fn register_dispatcher_waker(&self, cx: &mut std::task::Context<'_>) {
+        update_optional_waker(&mut self.shared.locked.lock().dispatcher_waker, cx);
+    }
+
     /// Enqueue an error into read half to be consumed by the user.
     pub fn enqueue_error(&self, msg: String) {
         let mut g = self.shared.locked.lock();
